@@ -583,6 +583,10 @@ func (l *mirrorLoader) Get(p string) (io.Reader, error) {
 	f, err := l.w.open(l.disk, filepath.ToSlash(rel))
 	if err != nil {
 		if errors.Is(err, fs.ErrNotExist) {
+			if tc := CurrentTask(); tc != nil {
+				tc.noYield++
+				defer func() { tc.noYield-- }()
+			}
 			os.Remove(p)
 			return l.real.Get(p) // the real loader reports the miss its own way
 		}
@@ -590,6 +594,13 @@ func (l *mirrorLoader) Get(p string) (io.Reader, error) {
 	}
 	if f.hasFail || f.chunk > 0 {
 		return f, nil // read faults are the simulated reader's business
+	}
+	// from here to the end of the real loader's Get nothing else may run: the file on the real
+	// disk must hold the version the simulator has just decided to serve when it is read
+	// (the real loader is engine code and carries forced-yield points in the instrumented build)
+	if tc := CurrentTask(); tc != nil {
+		tc.noYield++
+		defer func() { tc.noYield-- }()
 	}
 	if err := os.MkdirAll(filepath.Dir(p), 0o755); err != nil {
 		return nil, err
